@@ -624,6 +624,29 @@ func domLedger(env *Env) error {
 		if c.Halted != "" {
 			env.Violate("C11.halt", "halt:"+strings.SplitN(c.Halted, ":", 2)[0], "block processing panicked: "+c.Halted, w.hist)
 		}
+		if c.Halted == "" {
+			// C03 ("any completion height >= the current height, including records loaded from genesis"):
+			// a probe on a discarded cache context — a record due in the CURRENT block must be storable
+			// (a held record re-queued for the first block of a chain restarted from an export), one
+			// due in the past must be refused
+			cc, _ := c.Ctx.CacheContext()
+			h := uint64(cc.BlockHeight())
+			probe := func(complete uint64) error {
+				return c.App.DelegationKeeper.SetUndelegationRecords(cc, []delegationtypes.UndelegationRecord{{
+					StakerID: "0x0000000000000000000000000000000000000001_0x65", AssetID: c.AssetIDs[0], OperatorAddr: w.ops[0].String(),
+					TxHash: common.BytesToHash(detBytes(79, "probe", int(complete))).String(), IsPending: true, BlockNumber: h, CompleteBlockNumber: complete,
+					LzTxNonce: 1<<42 + complete, Amount: sdkmath.NewInt(1), ActualCompletedAmount: sdkmath.NewInt(1)}})
+			}
+			env.Eval("C03.accept")
+			if err := probe(h); err != nil {
+				env.Violate("C03.accept", "record-due-now-refused", fmt.Sprintf("SetUndelegationRecords refused a record due at the current height %d: %v", h, err), w.hist)
+			}
+			if h > 0 {
+				if err := probe(h - 1); err == nil {
+					env.Violate("C03.accept", "record-due-in-past-accepted", fmt.Sprintf("SetUndelegationRecords accepted a record due at %d at height %d", h-1, h), w.hist)
+				}
+			}
+		}
 		if hi == 0 && c.Halted == "" && env.Str("f02a", "0") == "1" {
 			w.directedZeroPool()
 		}
